@@ -431,6 +431,8 @@ def term_definite_difference(a, b, depth=0):
         fa_, fb_ = _REDUCTION_FAMILY.get(a[1]), _REDUCTION_FAMILY.get(b[1])
         if fa_ and fb_ and fa_ != fb_ and a[2] == b[2] and a[3] == b[3]:
             return f"{fa_} where {fb_} is required"       # different reductions of the same operand
+        if {a[1], b[1]} <= {".keys", ".values", ".items"} and a[1] != b[1] and a[2] == b[2]:
+            return f"dictionary {a[1][1:]} where {b[1][1:]} are required"
         if a[1] != b[1] or len(a[2]) != len(b[2]) or [k for k, _ in a[3]] != [k for k, _ in b[3]]:
             return None
         reason = None
@@ -449,7 +451,7 @@ def term_definite_difference(a, b, depth=0):
         b = ("slice", ("const", 0) if b[1] == nz else b[1], b[2], ("const", 1) if b[3] == nz else b[3])
         if a == b:
             return None
-    if ka in ("sub", "bin", "un", "tuple", "list", "slice", "elem", "phi"):
+    if ka in ("sub", "bin", "un", "tuple", "list", "slice", "elem", "phi", "cmp"):
         reason = None
         for p, q in zip(a[1:], b[1:]):
             if p == q:
